@@ -82,7 +82,7 @@ func atoi(s string) int { v, _ := strconv.Atoi(s); return v }
 func specOf(m map[string]string) chainSpec {
 	seed, _ := strconv.ParseInt(m["seed"], 10, 64)
 	pat, _ := strconv.ParseInt(m["pat"], 10, 64)
-	return chainSpec{seed: seed, n: atoi(m["n"]), nv: atoi(m["nv"]), events: m["ev"] == "1", txs: m["txs"] == "1", paramAt: pat, uniq: m["uq"] == "1"}
+	return chainSpec{seed: seed, n: atoi(m["n"]), nv: atoi(m["nv"]), events: m["ev"] == "1", txs: m["txs"] == "1", paramAt: pat, uniq: m["uq"] == "1", evid: m["evd"] == "1"}
 }
 
 // ---- one session: chain + light client + verifying client ----
@@ -1084,6 +1084,11 @@ func (g *gen) call() []string {
 	class := "none"
 	if muts != nil && r.Intn(100) < 55 {
 		mi := pickMut(r, muts)
+		if (kind == "block" || kind == "blockbyhash") && g.c.spec.evid && r.Intn(2) == 0 {
+			for tries := 0; tries < 20 && !strings.HasPrefix(mi.name, "Evidence"); tries++ {
+				mi = pickMut(r, muts)
+			}
+		}
 		m["mut"], class = mi.name, mi.class
 		if r.Intn(40) == 0 {
 			m["mut"], class = "backend-error", "free"
@@ -1155,8 +1160,81 @@ func scriptedValidators(emit func(core.Case)) {
 	}
 }
 
+// blocks that carry evidence: honest answers are relayed, every falsification of evidence CONTENT
+// (which the header's EvidenceHash commits to through the full evidence bytes) is refused
+func scriptedEvidence(emit func(core.Case)) {
+	spec := chainSpec{seed: 5, n: 6, nv: 3, txs: true, evid: true}
+	c := getChain(spec)
+	setEnv(c)
+	g := &gen{r: rand.New(rand.NewSource(1)), c: c, be: &backend{c: c, p: &plan{}}, root: 2, stored: map[int64]bool{2: true}}
+	ops := []string{fmt.Sprintf("chain seed=%d n=%d nv=%d ev=0 txs=1 pat=0 root=2 evd=1", spec.seed, spec.n, spec.nv)}
+	for h := int64(1); h <= int64(spec.n); h++ {
+		ops = append(ops, trustLine(c.lbs[h]))
+	}
+	for h := int64(1); h <= int64(spec.n); h++ {
+		ops = append(ops, g.scripted("block", fmt.Sprintf("req=%d", h), "none", 0)...)
+	}
+	k := 0
+	for _, mi := range blockMuts {
+		if !strings.HasPrefix(mi.name, "Evidence") {
+			continue
+		}
+		for h := int64(2); h <= int64(spec.n); h++ {
+			if len(c.blocks[h].Evidence.Evidence) == 0 {
+				continue
+			}
+			k++
+			if k%2 == 0 {
+				ops = append(ops, g.scripted("block", fmt.Sprintf("req=%d", h), mi.name, k)...)
+			} else {
+				ops = append(ops, g.scripted("blockbyhash", "req="+hx(c.lbs[h].Hash()), mi.name, k)...)
+			}
+		}
+	}
+	emit(core.Case{ID: "scripted-evidence-content", Kind: "scripted", Ops: ops})
+}
+
+// a proven answer relabelled with a height at which the key held ANOTHER value
+func scriptedABCIHeight(emit func(core.Case)) {
+	for seed := int64(3); seed < 12; seed++ {
+		spec := chainSpec{seed: seed, n: 7, nv: 2, txs: true}
+		c := getChain(spec)
+		setEnv(c)
+		g := &gen{r: rand.New(rand.NewSource(1)), c: c, be: &backend{c: c, p: &plan{}}, root: 1, stored: map[int64]bool{1: true}}
+		ops := []string{fmt.Sprintf("chain seed=%d n=%d nv=%d ev=0 txs=1 pat=0 root=1", spec.seed, spec.n, spec.nv)}
+		for h := int64(1); h <= int64(spec.n); h++ {
+			ops = append(ops, trustLine(c.lbs[h]))
+		}
+		found := 0
+		for h := int64(2); h < int64(spec.n); h++ {
+			for _, st := range storeAlphabet {
+				for _, key := range sortedKeys(c.app.hist[h][st]) {
+					if strings.HasPrefix(key, "x:") {
+						continue
+					}
+					path := "path=" + hx([]byte("/store/"+st+"/key")) + " data=" + hx([]byte(key)) + fmt.Sprintf(" qh=%d", h)
+					if prev, ok := c.app.hist[h-1][st][key]; ok && !bytes.Equal(prev, c.app.hist[h][st][key]) {
+						ops = append(ops, g.scripted("abci", path, "Height", 2*found)...) // label h-1
+						found++
+					}
+					if next, ok := c.app.hist[h+1][st][key]; ok && !bytes.Equal(next, c.app.hist[h][st][key]) && h+1 < int64(spec.n) {
+						ops = append(ops, g.scripted("abci", path, "Height", 2*found+1)...) // label h+1
+						found++
+					}
+				}
+			}
+		}
+		if found > 0 {
+			emit(core.Case{ID: "scripted-abci-height-label", Kind: "scripted", Ops: ops})
+			return
+		}
+	}
+}
+
 func scriptedCases(emit func(core.Case)) {
 	scriptedValidators(emit)
+	scriptedABCIHeight(emit)
+	scriptedEvidence(emit)
 	spec := chainSpec{seed: 3, n: 6, nv: 2, events: true, txs: true}
 	c := getChain(spec)
 	setEnv(c)
@@ -1396,6 +1474,7 @@ func genCases(r *rand.Rand, tier string, emit func(core.Case)) {
 		if r.Intn(4) == 0 {
 			spec.paramAt = int64(1 + r.Intn(spec.n))
 		}
+		spec.evid = r.Intn(3) == 0
 		if tier == "thorough" && r.Intn(10) == 0 {
 			spec.n = 10 + r.Intn(25)
 			spec.nv = 1 + r.Intn(8)
@@ -1404,7 +1483,7 @@ func genCases(r *rand.Rand, tier string, emit func(core.Case)) {
 		setEnv(c)
 		root := int64(1 + r.Intn(spec.n))
 		g := &gen{r: r, c: c, be: &backend{c: c, p: &plan{}}, root: root, stored: map[int64]bool{root: true}}
-		ops := []string{fmt.Sprintf("chain seed=%d n=%d nv=%d ev=%d txs=%d pat=%d root=%d", spec.seed, spec.n, spec.nv, b01(spec.events), b01(spec.txs), spec.paramAt, root)}
+		ops := []string{fmt.Sprintf("chain seed=%d n=%d nv=%d ev=%d txs=%d pat=%d root=%d evd=%d", spec.seed, spec.n, spec.nv, b01(spec.events), b01(spec.txs), spec.paramAt, root, b01(spec.evid))}
 		for h := int64(1); h <= int64(spec.n); h++ {
 			ops = append(ops, trustLine(c.lbs[h]))
 		}
